@@ -332,7 +332,7 @@ func parseF(s string) (float64, bool) {
 }
 
 // c05E2E: real dmap against real servers over SSH, one file per server
-// (the known finding c06.agg-early-exit needs several files per server).
+// (the known finding c06.cmd-race needs several files per server).
 func c05E2E(r *vlib.Run) {
 	nFleets := r.N(2, 12)
 	perFleet := r.N(8, 60)
